@@ -172,8 +172,12 @@ def r2_matches(rep, src):
     from .. import heap as H
     mt = src.func(M + ':FilesParagraph.matches')
     mod = src.mod(M)
+    # the Files field of the scenario paragraph is consistent with the outcome the pattern gives: a wildcard-free list whose first
+    # entry escapes a backslash (so the name that matches is not the text of the entry)
+    scen = {(True, True): ((r'a\\b', 'debian/rules'), 'a\\b'), (True, False): ((r'a\\b', 'debian/rules'), r'a\\b'), (False, None): ((), 'some/file')}
     for pat_present, hit, want in ((False, None, False), (True, True, True), (True, False, False)):
         asked = []
+        globs, name = scen[(pat_present, hit)]
 
         def fm(it, args, kw, hit=hit):
             asked.append(args[1:])
@@ -181,14 +185,14 @@ def r2_matches(rep, src):
         heap = H.Heap(mod, hooks={'.files_pattern': lambda it, args, kw, p=pat_present: it.h.alloc('Pattern', {}, name='@pat') if p else None,
                                   '.fullmatch': fm, '.match': fm, '.search': fm})
         heap.symbolic_strings = True
-        me = heap.alloc('FilesParagraph', {}, name='@files')
+        me = heap.alloc('FilesParagraph', {'files': globs}, name='@files')
         what = 'matches(): pattern %s%s' % ('present' if pat_present else 'absent', '' if hit is None else (', name %s' % ('matches' if hit else 'does not match')))
         try:
-            r = H.Interp(heap).call(H.Closure(mt.node, {}, me, mt.cls), ['some/file'])
+            r = H.Interp(heap).call(H.Closure(mt.node, {}, me, mt.cls), [name])
         except H.Raised as x:
             rep.fail('C16.R2', mt.site, what, 'raises %s' % x.exc, where=mt.where)
             continue
-        if r is want and (not pat_present or asked == [['some/file']]):
+        if r is want and (not pat_present or asked == [[name]]):
             rep.ok('C16.R2', mt.site, what, repr(r))
         else:
             rep.fail('C16.R2', mt.site, what, 'returns %r (pattern asked with %r); the answer must be exactly whether the pattern matches the given name' % (r, asked), where=mt.where)
